@@ -10,7 +10,7 @@ P = {
  "C06": ("other", "routing decision table by path enumeration of the send helper + static call-graph reachability to the transport seam", "3 C06"),
  "C07": ("other", "rejection decision tables by path enumeration with interval refinement, compared with the contract on the union of cut points", "3 C07"),
  "C08": ("other", "goroutine-captured-variable discipline (mutex / atomic / channel), connection escape, lock and deadline ordering on enumerated paths", "3 C08"),
- "C09": ("other", "typestate on enumerated paths: open->close pairing, deadline-before-read with value shape, reader-goroutine exit, lock pairing", "3 C09"),
+ "C09": ("other", "typestate on enumerated paths: open->close pairing, deadline-before-read with value shape (one clock reading for a TCP connect and its exchange), reader-goroutine exit on and only on a failed read, lock pairing", "3 C09"),
  "C10": ("other", "listener handler/consumer/shutdown path enumeration + sibling agreement with GetStatus + aliasing rule for the reused buffer", "3 C10"),
  "C11": ("other", "broadcast helper enumerated over accept/reject patterns of 3 replies + GetDevices result wiring for 0/1/2 replies", "3 C11"),
  "C12": ("other", "abstract interpretation of Encode/Decode for one symbol with exact value-set refinement (finite powerset domain: all 256 byte values, all rune regions cut by the code's comparisons); emitted nibble/characters tabulated as expressions of the symbol; no package-level state in the bcd package", "3 C12"),
@@ -18,8 +18,8 @@ P = {
  "C14": ("other", "writer/reader constant agreement by context-sensitive constant flow, reader/writer maps compared per value, nil-map establishment and receiver-map dataflow, HH:mm domain regions", "3 C14"),
  "C15": ("other", "port-rule decision tables per role + regular-language inclusion on the constant patterns' automata", "3 C15"),
  "C16": ("proof", "exhaustive evaluation of the comparison functions over the finite sign-vector domain extracted from go/ssa, compared with the lexicographic order", "3 C16"),
- "C17": ("other", "ownership lints: constructor-only writes, fresh allocation in Clone/DeviceList, no stores through arguments, no buffer views in decoded values", "3 C17"),
- "C18": ("other", "per-kind walk of the codec's two reflection loops for one generic field (helpers and dispatch tables inlined): extents, aliasing, error propagation, tag base and tag grammar over all byte literals, kind symmetry, no silently skipped field", "3 C18"),
+ "C17": ("other", "ownership lints: constructor-only writes, fresh allocation in Clone/DeviceList, no stores through arguments (callee summaries for functions not walked in line), no buffer views in decoded values, the datagram never leaves the listener's handler", "3 C17"),
+ "C18": ("other", "per-kind walk of the codec's two reflection loops for one generic field (helpers and dispatch tables inlined): extents, aliasing, error propagation, tag base and tag grammar over all byte literals, kind symmetry, no silently skipped field, value tags honoured for every constant, panic inventory of the codec package (linear bound domain)", "3 C18"),
 }
 TEXT = {
  "C01": "Structural, complete for wiring and layout: for all 32 operations and all argument values at once, which argument or constant reaches which byte offset in which encoding, on every path. Value-level digit correctness of BCD∘time.Format is delegated (C12 decides the digit map).",
